@@ -147,9 +147,20 @@ type worldGen struct {
 	r      *rand.Rand
 	routes []any
 	n      int
+	query  bool // every object of a host lives at the same path; identifiers differ in the query only
 }
 
-func (g *worldGen) url(h int, name string) string { return fmt.Sprintf("https://{H%d}/{OP}/%s", h, name) }
+/* the last path segment an object called `name` is served under */
+func (g *worldGen) seg(name string) string {
+	if g.query {
+		return "o?n=" + name
+	}
+	return name
+}
+
+func (g *worldGen) url(h int, name string) string {
+	return fmt.Sprintf("https://{H%d}/{OP}/%s", h, g.seg(name))
+}
 
 func jsonDoc(fields map[string]any) string {
 	b, _ := json.Marshal(fields)
@@ -166,13 +177,13 @@ func (g *worldGen) serve(h int, name string, fields map[string]any) string {
 		status = "HTTP/1.0 404 Gone"
 	}
 	resp := status + "\r\nContent-Type: application/activity+json\r\n\r\n" + jsonDoc(fields)
-	g.routes = append(g.routes, map[string]any{"h": h, "path": "/{OP}/" + name, "resp": resp, "fault": ""})
+	g.routes = append(g.routes, map[string]any{"h": h, "path": "/{OP}/" + g.seg(name), "resp": resp, "fault": ""})
 	return g.url(h, name)
 }
 
 func (g *worldGen) redirect(h int, name string, to string) string {
 	resp := "HTTP/1.0 302 Found\r\nLocation: " + to + "\r\n\r\n"
-	g.routes = append(g.routes, map[string]any{"h": h, "path": "/{OP}/" + name, "resp": resp, "fault": ""})
+	g.routes = append(g.routes, map[string]any{"h": h, "path": "/{OP}/" + g.seg(name), "resp": resp, "fault": ""})
 	return g.url(h, name)
 }
 
@@ -181,11 +192,36 @@ func (g *worldGen) embed(h int, fields map[string]any) map[string]any {
 	g.n++
 	out := map[string]any{}
 	for k, v := range fields {
-		out[k] = v
+		out[k] = g.restamp(v, h)
 	}
 	out["name"] = fmt.Sprintf("embedded#%d@H%d", g.n, h)
 	out["stamp"] = fmt.Sprintf("H%d", h)
 	return out
+}
+
+/* objects nested inside an embedded copy are served by the embedding host too: a deep copy in
+   which every stamped object carries that host's stamp */
+func (g *worldGen) restamp(v any, h int) any {
+	switch t := v.(type) {
+	case map[string]any:
+		out := map[string]any{}
+		for k, x := range t {
+			out[k] = g.restamp(x, h)
+		}
+		if _, ok := t["stamp"]; ok {
+			g.n++
+			out["name"] = fmt.Sprintf("embedded#%d@H%d", g.n, h)
+			out["stamp"] = fmt.Sprintf("H%d", h)
+		}
+		return out
+	case []any:
+		out := make([]any, len(t))
+		for i, x := range t {
+			out[i] = g.restamp(x, h)
+		}
+		return out
+	}
+	return v
 }
 
 func (g *worldGen) actor(h int, name string, idHost int) (string, map[string]any) {
@@ -221,7 +257,7 @@ func (g *worldGen) refTo(fromHost int, url string, fields map[string]any) any {
 
 func genPubWorld(r *rand.Rand, n int, emit func(Op)) {
 	for i := 0; i < n; i++ {
-		g := &worldGen{r: r}
+		g := &worldGen{r: r, query: r.Intn(4) == 0}
 		home := r.Intn(simHosts)
 		evil := (home + 1 + r.Intn(simHosts-1)) % simHosts
 		/* the legitimate cast */
@@ -299,8 +335,8 @@ func genPubWorld(r *rand.Rand, n int, emit func(Op)) {
 			/* re-serve root with the replies (same route, replaced) */
 			root["name"] = fmt.Sprintf("root@H%d", home)
 			for k, rt := range g.routes {
-				if rt.(map[string]any)["path"] == "/{OP}/root" {
-					g.routes[k] = map[string]any{"h": home, "path": "/{OP}/root", "resp": "HTTP/1.0 200 OK\r\nContent-Type: application/activity+json\r\n\r\n" + jsonDoc(root), "fault": ""}
+				if rt.(map[string]any)["path"] == "/{OP}/"+g.seg("root") {
+					g.routes[k] = map[string]any{"h": home, "path": "/{OP}/" + g.seg("root"), "resp": "HTTP/1.0 200 OK\r\nContent-Type: application/activity+json\r\n\r\n" + jsonDoc(root), "fault": ""}
 				}
 			}
 		}
@@ -326,8 +362,17 @@ func genPubWorld(r *rand.Rand, n int, emit func(Op)) {
 			if actor != nil {
 				fields["actor"] = actor
 			}
-			if r.Intn(8) == 0 {
-				fields["object"] = map[string]any{"type": "Create", "object": g.refTo(h, notes[k], noteFields[k])}
+			if r.Intn(5) == 0 {
+				/* Lemmy style: the object is an inline Create, which is unwrapped; the wrapper may
+				   carry an id of its own (on any host) and wrap a full inline copy */
+				wrap := map[string]any{"type": "Create", "object": g.refTo(h, notes[k], noteFields[k])}
+				if r.Intn(2) == 0 {
+					wrap["object"] = g.embed(h, noteFields[k])
+				}
+				if r.Intn(3) != 0 {
+					wrap["id"] = g.url(pick(r, []int{home, evil, h}), fmt.Sprintf("wrap%d", a))
+				}
+				fields["object"] = wrap
 			}
 			au := g.serve(h, fmt.Sprintf("act%d", a), fields)
 			acts = append(acts, g.refTo(home, au, fields))
@@ -344,8 +389,8 @@ func genPubWorld(r *rand.Rand, n int, emit func(Op)) {
 		mallory["outbox"] = moutbox
 		mallory["name"] = fmt.Sprintf("mallory@H%d", evil)
 		for k, rt := range g.routes {
-			if rt.(map[string]any)["path"] == "/{OP}/mallory" {
-				g.routes[k] = map[string]any{"h": evil, "path": "/{OP}/mallory", "resp": "HTTP/1.0 200 OK\r\nContent-Type: application/activity+json\r\n\r\n" + jsonDoc(mallory), "fault": ""}
+			if rt.(map[string]any)["path"] == "/{OP}/"+g.seg("mallory") {
+				g.routes[k] = map[string]any{"h": evil, "path": "/{OP}/" + g.seg("mallory"), "resp": "HTTP/1.0 200 OK\r\nContent-Type: application/activity+json\r\n\r\n" + jsonDoc(mallory), "fault": ""}
 			}
 		}
 		outboxPage2 := map[string]any{"type": "OrderedCollectionPage", "orderedItems": acts[len(acts)/2:]}
@@ -359,8 +404,8 @@ func genPubWorld(r *rand.Rand, n int, emit func(Op)) {
 		alice["name"] = fmt.Sprintf("alice@H%d", home)
 		alice["stamp"] = fmt.Sprintf("H%d", home)
 		for k, rt := range g.routes {
-			if rt.(map[string]any)["path"] == "/{OP}/alice" {
-				g.routes[k] = map[string]any{"h": home, "path": "/{OP}/alice", "resp": "HTTP/1.0 200 OK\r\nContent-Type: application/activity+json\r\n\r\n" + jsonDoc(alice), "fault": ""}
+			if rt.(map[string]any)["path"] == "/{OP}/"+g.seg("alice") {
+				g.routes[k] = map[string]any{"h": home, "path": "/{OP}/" + g.seg("alice"), "resp": "HTTP/1.0 200 OK\r\nContent-Type: application/activity+json\r\n\r\n" + jsonDoc(alice), "fault": ""}
 			}
 		}
 		starts := []string{rootURL, aliceURL, aliceURL, aliceURL, malloryURL, bobURL, prevURL, outboxURL, forgedAliceURL}
